@@ -1,8 +1,10 @@
 #!/bin/bash
-# usage: eval_batch.sh <ID> [extra check ids...] : confirm and try every /tmp/mut/<ID>/mN.diff
+# usage: eval_batch.sh <ID> [extra check ids...] : confirm and try every $MUT_DIR/<ID>/mN.diff (default /tmp/mut3)
+# (honours EVAL_REPO / EVAL_VERIF, see try_mutant.sh)
 ID=$1; shift
+M=${MUT_DIR:-/tmp/mut3}
 for n in 1 2 3; do
-  P=/tmp/mut/$ID/m$n.diff; D=/tmp/mut/$ID/demo$n.rs
+  P=$M/$ID/m$n.diff; D=$M/$ID/demo$n.rs
   [ -f "$P" ] || continue
   echo "=== $ID m$n"
   /verif/selftest/confirm_mutant.sh "$P" "$D" 2>&1 | tail -3
